@@ -6,6 +6,8 @@ use crate::pool;
 use serde_json::{json, Value};
 
 pub mod c01;
+pub mod c03;
+pub mod c04;
 pub mod e1common;
 pub mod smoke;
 
@@ -13,6 +15,8 @@ pub fn parent_main(prop: &str, tier: &str) -> i32 {
     match prop {
         "SMOKE" => smoke::parent(tier),
         "C01" => c01::parent(tier),
+        "C03" => c03::parent(tier),
+        "C04" => c04::parent(tier),
         _ => {
             eprintln!("unknown property {}", prop);
             2
@@ -25,6 +29,14 @@ pub fn worker_main(prop: &str, tier: &str, _slot: usize) {
         "SMOKE" => pool::worker_loop(|t, io| smoke::handle(tier, t, io)),
         "C01" => {
             let mut h = c01::handle_factory();
+            pool::worker_loop(|t, io| h(tier, t, io))
+        }
+        "C03" => {
+            let mut h = c03::handle_factory();
+            pool::worker_loop(|t, io| h(tier, t, io))
+        }
+        "C04" => {
+            let mut h = c04::handle_factory();
             pool::worker_loop(|t, io| h(tier, t, io))
         }
         _ => {}
